@@ -66,7 +66,7 @@ def _float_record(op, wpos):
         r["w"] = [wpos[w] for w in op.control_wires] + r["w"]
         r["mods"] = r["mods"] + [{"t": "ctrl", "cv": [int(bool(v)) for v in op.control_values]}]
         return r
-    w = [wpos[x] for x in op.wires] or [1]
+    w = [wpos[x] for x in op.wires]
     if op.name == "QubitUnitary":
         return dict(rec("MAT", w), fm=np.asarray(op.data[0], dtype=complex))
     x = [{"I": 0, "X": 1, "Y": 2, "Z": 3}[c] for c in op.hyperparameters.get("pauli_word", "")] if op.name == "PauliRot" else []
